@@ -122,6 +122,7 @@ def extract(pkg_text, top_text):
         f["brackets"].append((name, seq))
     # declared names per scope
     pkg_decl = []
+    enum_fields = []
     used_pkg, used_top, lits = [], [], []
     for it in pk["items"]:
         k = it["k"]
@@ -129,8 +130,11 @@ def extract(pkg_text, top_text):
             pkg_decl.append(it["name"])
             pkg_decl += [m for m, _ in it["members"]]
             dims_ids(it["dims"], used_pkg)
-            for _, v in it["members"]:
+            ew = netlist.width_of(it["dims"], it["name"]) or 1
+            for mname, v in it["members"]:
                 lits_in(v, lits)
+                if v[0] == "num":
+                    enum_fields.append((it["name"] + "." + mname, ew, v[1]))
         elif k == "typedef":
             pkg_decl.append(it["name"])
             used_pkg.append(it["base"])
@@ -204,7 +208,7 @@ def extract(pkg_text, top_text):
                     fields.append((r["map"][0] + ".idx", fb[0], rule[0]))
                     fields.append((r["map"][0] + ".start_addr", fb[1], rule[1]))
                     fields.append((r["map"][0] + ".end_addr", fb[2], rule[2]))
-    f["fields"] = fields
+    f["fields"] = fields + enum_fields
     f["sam_lits"] = [(r[3], r[1], r[4], n["aw"]) for r in n["sam"]] + [(r[5], r[2], r[6], n["aw"]) for r in n["sam"]]
     f["route_bits"] = n["route_bits"]
     f["words"] = [w for row in (n["tables"] or []) for w in row]
